@@ -107,7 +107,12 @@ def main(ctx, replay=None):
     ctx.assumptions += ["modes at the Gamma point are permuted only among the non-acoustic slots", "rtol 1e-7 of the array scale (summation order)"]
     wd = Workdir()
     try:
-        sets = [free_dataset(rng, extra_shear=3, lattice=True, nq=4, nat=2), system_dataset(rng, exports, "hexagonal", lattice=True, nq=3, nat=2)]
+        # frequencies that are not power laws (so that which volumes an interpolator uses matters), a node-subsampling interpolator at an
+        # order with an asymmetric node subset, and a cell whose first two strain fractions are close without being equal
+        sets = [free_dataset(rng, extra_shear=3, lattice=True, nq=4, nat=2, freq_curv=0.4),
+                system_dataset(rng, exports, "hexagonal", lattice=True, nq=3, nat=2),
+                free_dataset(rng, extra_shear=2, lattice=True, nq=2, nat=1, nv=8, freq_curv=0.5, axis_split=3e-4,
+                             interpolator=str(rng.choice(["lagrange", "krogh"])), order=3)]
         if ctx.tier == "thorough":
             sets += [free_dataset(rng, extra_shear=8, lattice=False, nq=5, nat=3), system_dataset(rng, exports, "trigonal7", lattice=True, nq=4, nat=1)]
         for si, ds in enumerate(sets):
